@@ -14,7 +14,8 @@ cmd = ["/venv/bin/python", "-m", "pytest", "-ra", "-q", "-p", "no:cacheprovider"
        "--continue-on-collection-errors", f"--junitxml={out}"] + paths
 env = dict(os.environ)
 env.pop("VGI_RPC_VERIF", None)
-p = subprocess.run(cmd, cwd="/repo", env=env, capture_output=True, text=True)
+env["PYTHONPATH"] = os.environ.get("REPO_DIR", "/repo")
+p = subprocess.run(cmd, cwd=os.environ.get("REPO_DIR", "/repo"), env=env, capture_output=True, text=True)
 print(p.stdout[-600:])
 passed, failed = set(), set()
 for tc in ET.parse(out).getroot().iter("testcase"):
